@@ -268,6 +268,34 @@ def _gen_rpow(rng, D, P, tier):
     return [S(rng.choice([2.0, 0.5, 3, 1.5])), U(rand_coeffs(rng, (D, P) + s, -1, 1))]
 
 
+def _gen_powua(rng, D, P, tier):
+    """polynomial ** constant array of exponents: same shape, lower rank, length-1 axes, and higher rank (also with a leading
+    axis as long as the number of directions, which must not be confused with the direction axis)"""
+    s = _shape(rng, tier)
+    how = rng.choice(['same', 'lower', 'ones', 'higher', 'higherP', 'higher1'])
+    if how == 'same':
+        rs = s
+    elif how == 'lower':
+        rs = s[rng.randint(0, len(s)):] if s else ()
+    elif how == 'ones':
+        rs = tuple(rng.choice([1, n]) for n in s)
+    elif how == 'higher':
+        rs = (rng.randint(2, 3),) + s
+    elif how == 'higherP':
+        rs = (P,) + s
+    else:
+        rs = (rng.randint(2, 3), 1) + s
+    if rs == ():
+        rs = (P,)
+    x = rand_coeffs(rng, (D, P) + s, -1, 1)
+    x[0] = c01.gen_x0(rng, 'pos', (P,) + s, False)
+    r = np.array([rng.choice([1.0, 2.0, 3.0, 0.5, -1.0, 1.5, -0.5]) for _ in range(int(np.prod(rs)))]).reshape(rs)
+    return [U(x), A(r)]
+
+
+op('pow:ua', _gen_powua, lambda a: a[0] ** a[1], lambda z: z[0] ** z[1], tags=('arith',))
+
+
 op('rpow:su', _gen_rpow, lambda a: a[0] ** a[1], lambda z: z[0] ** z[1], tags=('arith',))
 
 
@@ -281,7 +309,7 @@ def _gen_distinct(rng, D, P, shape):
     x = rand_coeffs(rng, (D, P) + shape, -2, 2)
     n = int(np.prod(shape))
     for p in range(P):
-        vals = rng.sample([k / 8.0 for k in range(-24, 25)], n)
+        vals = rng.sample([k / 8.0 for k in range(-24, 25)] if n <= 40 else [k / 16.0 for k in range(-48, 49)], n)
         x[0, p] = np.array(vals).reshape(shape)
     return x
 
@@ -413,6 +441,30 @@ def _gen_logdet(rng, D, P, tier):
     return [U(gen_square(rng, D, P, rng.randint(1, 3), 'spd'))]
 
 
+def _gen_det_singular(rng, D, P, tier):
+    """integer matrices whose zeroth coefficient is singular in at least one direction (det is a polynomial in the entries:
+    smooth there); ranks n-1 and lower, also the zero matrix"""
+    n = rng.randint(1, 3)
+    x = np.round(rand_coeffs(rng, (D, P, n, n), -2, 2))
+    for p in range(P):
+        if p > 0 and rng.random() < 0.4:
+            x[0, p] = np.round(rand_coeffs(rng, (n, n), -2, 2)) + 3 * np.eye(n)      # a regular direction next to a singular one
+            continue
+        how = rng.choice(['zero', 'row', 'col', 'rank1']) if n > 1 else 'zero'
+        A0 = np.round(rand_coeffs(rng, (n, n), -2, 2))
+        if how == 'zero':
+            A0[...] = 0
+        elif how == 'row':
+            A0[n - 1] = 2 * A0[0]
+        elif how == 'col':
+            A0[:, 0] = -A0[:, n - 1]
+        else:
+            A0 = np.outer(A0[0], A0[:, 0])
+        x[0, p] = A0
+    return [U(x)]
+
+
+op('det:singular', _gen_det_singular, lambda a: algopy.det(a[0]), lambda z: np.linalg.det(z[0]), tags=('linalg',))
 op('logdet', _gen_logdet, lambda a: algopy.logdet(a[0]), lambda z: np.linalg.slogdet(z[0])[1], tags=('linalg',))
 op('qr', lambda rng, D, P, t: [U(gen_tall(rng, D, P, *rng.choice([(2, 2), (3, 3), (3, 2), (4, 2)])))],
    lambda a: algopy.qr(a[0]), lambda z: np.linalg.qr(z[0]), tags=('linalg', 'factor'))
